@@ -207,7 +207,8 @@ def looks_like(value: Any, path: tuple) -> str | None:
     return None
 
 
-CYCLES = ["schemas-mutual-allof", "schemas-mutual-items", "schemas-self-ref-alias", "bodies-cycle", "responses-chain", "parameters-chain", "schemas-ref-chain"]
+CYCLES = ["schemas-mutual-allof", "schemas-mutual-items", "schemas-self-ref-alias", "bodies-cycle", "responses-chain", "parameters-chain", "schemas-ref-chain",
+          "bodies-rho-self", "bodies-rho-two", "bodies-long-chain", "responses-rho", "parameters-rho", "schemas-rho-allof", "schemas-rho-items", "schemas-cycle-with-bad-piece"]
 
 
 def faults_at(doc: Any, p: tuple) -> list[dict]:
@@ -366,6 +367,48 @@ def _apply_cycle(d: Any, what: str) -> Any:
         p["CycP1"] = {"$ref": "#/components/parameters/CycP2"}
         p["CycP2"] = {"$ref": "#/components/parameters/CycP1"}
         _attach(d, "parameters", [{"$ref": "#/components/parameters/CycP1"}])
+    elif what in ("bodies-rho-self", "bodies-rho-two", "bodies-long-chain"):
+        # a chain that runs into a cycle NOT containing its start (rho shape), or simply a long chain that resolves
+        b = comps.setdefault("requestBodies", {})
+        b["RhoA"] = {"$ref": "#/components/requestBodies/RhoB"}
+        if what == "bodies-rho-self":
+            b["RhoB"] = {"$ref": "#/components/requestBodies/RhoB"}
+        elif what == "bodies-rho-two":
+            b["RhoB"] = {"$ref": "#/components/requestBodies/RhoC"}
+            b["RhoC"] = {"$ref": "#/components/requestBodies/RhoD"}
+            b["RhoD"] = {"$ref": "#/components/requestBodies/RhoC"}
+        else:
+            b["RhoB"] = {"$ref": "#/components/requestBodies/RhoC"}
+            b["RhoC"] = {"$ref": "#/components/requestBodies/RhoD"}
+            b["RhoD"] = {"content": {"application/json": {"schema": {"type": "string"}}}}
+        _attach(d, "requestBody", {"$ref": "#/components/requestBodies/RhoA"})
+    elif what == "responses-rho":
+        r = comps.setdefault("responses", {})
+        r["RhoR1"] = {"$ref": "#/components/responses/RhoR2"}
+        r["RhoR2"] = {"$ref": "#/components/responses/RhoR3"}
+        r["RhoR3"] = {"$ref": "#/components/responses/RhoR2"}
+        _attach(d, "responses", {"200": {"$ref": "#/components/responses/RhoR1"}})
+    elif what == "parameters-rho":
+        p = comps.setdefault("parameters", {})
+        p["RhoP1"] = {"$ref": "#/components/parameters/RhoP2"}
+        p["RhoP2"] = {"$ref": "#/components/parameters/RhoP2"}
+        _attach(d, "parameters", [{"$ref": "#/components/parameters/RhoP1"}])
+    elif what == "schemas-rho-allof":
+        s = comps.setdefault("schemas", {})
+        s["RhoA"] = {"allOf": [{"$ref": "#/components/schemas/RhoB"}, {"type": "object", "properties": {"a": {"type": "string"}}}]}
+        s["RhoB"] = {"allOf": [{"$ref": "#/components/schemas/RhoC"}, {"type": "object", "properties": {"b": {"type": "string"}}}]}
+        s["RhoC"] = {"allOf": [{"$ref": "#/components/schemas/RhoB"}, {"type": "object", "properties": {"c": {"type": "string"}}}]}
+    elif what == "schemas-rho-items":
+        s = comps.setdefault("schemas", {})
+        s["RhoA"] = {"type": "array", "items": {"$ref": "#/components/schemas/RhoB"}}
+        s["RhoB"] = {"type": "array", "items": {"$ref": "#/components/schemas/RhoC"}}
+        s["RhoC"] = {"oneOf": [{"$ref": "#/components/schemas/RhoB"}, {"type": "string"}]}
+    elif what == "schemas-cycle-with-bad-piece":
+        # legal reference cycles between models (through properties / array items) with an invalid piece ON the cycle
+        s = comps.setdefault("schemas", {})
+        s["CbA"] = {"type": "object", "properties": {"b": {"$ref": "#/components/schemas/CbB"}, "bad": {"type": "array"}}}
+        s["CbB"] = {"type": "object", "properties": {"a": {"$ref": "#/components/schemas/CbA"}, "c": {"type": "array", "items": {"$ref": "#/components/schemas/CbC"}}}}
+        s["CbC"] = {"type": "object", "properties": {"self": {"$ref": "#/components/schemas/CbC"}, "b": {"$ref": "#/components/schemas/CbB"}, "bad": {"$ref": "#/components/schemas/Nope"}}}
     else:
         raise ValueError(what)
     return d
